@@ -1564,8 +1564,33 @@ def _raises_status(run, g: Func, want: str, what: str):
 # R4
 # ---------------------------------------------------------------------------
 
+class _NonInt:
+    """Abstract close code: any value whose type is not int (and that is not None)."""
+
+    def __repr__(self):
+        return '<non-int value>'
+
+
+NON_INT = _NonInt()
+# builtin classes no int (and no None) is an instance of
+_DISJOINT_FROM_INT = ('builtins.str', 'builtins.bytes', 'builtins.bytearray', 'builtins.float', 'builtins.tuple', 'builtins.list', 'builtins.dict')
+
+
+def _code_predicate(e) -> bool:
+    """e is a truth-valued expression over the close code: a comparison / isinstance() that mentions `code`, or not/and/or of such"""
+    if isinstance(e, ast.Compare) or (isinstance(e, ast.Call) and isinstance(e.func, ast.Name) and e.func.id == 'isinstance'):
+        return any(isinstance(x, ast.Name) and x.id == 'code' for x in walk_self(e))
+    if isinstance(e, ast.UnaryOp) and isinstance(e.op, ast.Not):
+        return _code_predicate(e.operand)
+    if isinstance(e, ast.BoolOp):
+        return any(_code_predicate(v) for v in e.values) and all(
+            _code_predicate(v) or isinstance(v, (ast.Compare, ast.Constant)) for v in e.values)
+    return False
+
+
 class _CloseEval:
-    """Concrete evaluation of close()'s validation for one value of `code`."""
+    """Evaluation of close()'s validation for one value of `code`: an integer, None, or the abstract NON_INT (type partition
+    {None, int, anything else} of the argument)."""
 
     def __init__(self, p, model: WSModel):
         self.p = p
@@ -1574,6 +1599,14 @@ class _CloseEval:
         if 'code' not in self.f.params():
             raise AnchorError('%s has no code parameter' % self.f.qual)
         self.cfg = cfg_of(self.f, p)
+        self.type_errors: List[str] = []
+        # locals computed from the close code (`reserved = 1015 <= code <= 1999`): a test over one of them is not read
+        self.derived: Set[str] = set()
+        for n in walk_self(self.f.node):
+            if isinstance(n, (ast.Assign, ast.AnnAssign, ast.NamedExpr)) and getattr(n, 'value', None) is not None \
+                    and _code_predicate(n.value):
+                tg = n.targets if isinstance(n, ast.Assign) else [n.target]
+                self.derived |= {t.id for t in tg if isinstance(t, ast.Name) and t.id != 'code'}
         self.consts: Set[int] = set()
         for n in walk_self(self.f.node):
             if isinstance(n, ast.Compare) and any(isinstance(x, ast.Name) and x.id == 'code' for x in walk_self(n)):
@@ -1594,16 +1627,36 @@ class _CloseEval:
 
     def atom(self, code):
         def atom(e):
+            if self.derived and any(isinstance(x, ast.Name) and x.id in self.derived for x in walk_self(e)):
+                raise UnknownIdiom('%s: test %s over a local computed from the close code' % (self.f.qual, short(e)))
             if not any(isinstance(x, ast.Name) and x.id == 'code' for x in walk_self(e)):
                 return None
             if isinstance(e, ast.Name):
-                return {bool(code)}
+                return {True, False} if code is NON_INT else {bool(code)}
             if isinstance(e, ast.Call) and isinstance(e.func, ast.Name) and e.func.id == 'isinstance' and len(e.args) == 2 \
                     and isinstance(e.args[0], ast.Name) and e.args[0].id == 'code':
                 t = self.p.resolve_expr(self.f.module, e.args[1], self.f)
                 if t == 'builtins.int':
-                    return {isinstance(code, int)}
+                    return {False} if code is NON_INT else {isinstance(code, int)}
+                if t == 'builtins.bool':
+                    return {False} if code is NON_INT else {isinstance(code, bool)}    # bool is a subclass of int
+                if code is NON_INT:
+                    # the abstract value stands for every type outside int (str, bytes, float, tuple, ...): a test for some
+                    # other class holds for some of them and not for others
+                    return {True, False}
+                if t in _DISJOINT_FROM_INT:
+                    return {False}
                 raise UnknownIdiom('%s: %s' % (self.f.qual, short(e)))
+            if isinstance(e, ast.Compare) and code is NON_INT:
+                # identity with None is decided (the abstract value is not None); every other comparison of a non-int value
+                # with a constant has no outcome the rule may rely on (TypeError for str/bytes/tuple, numeric for float)
+                if len(e.ops) == 1 and isinstance(e.ops[0], (ast.Is, ast.IsNot)) and isinstance(e.left, ast.Name) and e.left.id == 'code' \
+                        and isinstance(e.comparators[0], ast.Constant) and e.comparators[0].value is None:
+                    return {isinstance(e.ops[0], ast.IsNot)}
+                if any(isinstance(o, (ast.Lt, ast.LtE, ast.Gt, ast.GtE)) for o in e.ops):
+                    # an ordering test reached with a non-int value: str/bytes/tuple/None-like objects raise TypeError here
+                    self.type_errors.append(short(e))
+                return {True, False}
             if isinstance(e, ast.Compare):
                 vals = [self._val(x, code) if not isinstance(x, (ast.Tuple, ast.List, ast.Set)) else [self._val(y, code) for y in x.elts]
                         for x in [e.left] + list(e.comparators)]
@@ -1676,11 +1729,17 @@ class _CloseEval:
                         raise UnknownIdiom('%s: close code rebound by %s' % (f.qual, short(n.ast)))
                     v2 = nv
             at = self.atom(v)
+            outcomes = None
+            if n.kind == 'test':
+                self.type_errors = []
+                outcomes = possible(n.ast, at)
+                if self.type_errors:
+                    raised.add(('builtins.TypeError', nid))
             for (y, l) in cfg.succ[nid]:
                 if l == 'exc':
                     continue
                 if n.kind == 'test' and l in ('T', 'F'):
-                    if (l == 'T') not in possible(n.ast, at):
+                    if (l == 'T') not in outcomes:
                         continue
                 work.append((y, v2))
         return raised, sent, wire
@@ -1740,6 +1799,15 @@ _SENDABLE_REGISTERED = (
     (1013, 'Try Again Later, IANA registry - assigned after the RFC text was written'),
     (1014, 'Bad Gateway, IANA registry - assigned after the RFC text was written'),
 )
+# 2000-2999 (auto-mutation seed sa-am01349).  The page close() documents as the reference for `code` (MDN CloseEvent/code) lists
+# "1016-1999: for definition by future revisions of the WebSocket Protocol specification" and, as a separate row, "2000-2999: for
+# use by WebSocket extensions"; close() rejects "reserved" codes only ('Only unreserved codes may be used') and accepts the
+# extension range today.  So the end of the reserved block is 1999: the two boundary codes of the extension range are accepted.
+_EXTENSION_RANGE = (
+    (2000, 'first code of 2000-2999, "for use by WebSocket extensions" (MDN CloseEvent/code, RFC 6455 section 7.4.2) - not part of the '
+           'block 1016-1999 reserved for future protocol revisions'),
+    (2999, 'last code of 2000-2999, "for use by WebSocket extensions"'),
+)
 _UNSENDABLE_REGISTERED = (
     (1004, 'RFC 6455: reserved, "the specific meaning might be defined in the future"'),
     (1016, 'first unassigned code: 1016-1999 are reserved for future revisions of the WebSocket protocol'),
@@ -1782,8 +1850,19 @@ def r4_close_codes(run):
     for v, why in _UNSENDABLE_REGISTERED:
         verdicts.setdefault(v, _classify_code(p, model, v))
         group('the code %d (%s) is rejected with ValueError' % (v, why), [v], 'reject', 'ws.close(%d) puts a reserved close code on the wire')
+    for v, why in _EXTENSION_RANGE:
+        verdicts.setdefault(v, _classify_code(p, model, v))
+        group('the code %d (%s) is accepted and sent unchanged' % (v, why), [v], 'accept',
+              'ws.close(%d) raises "Only unreserved codes may be used" for a code outside the reserved block 1016-1999')
     v = _classify_code(p, model, None)
     run.check(v == 'accept', 'close(): code=None means 1000 on the wire', f, 'close-code default', witness=[str(v)])
+    # type partition of the argument {None, int, anything else}: the third cell is rejected before anything is sent and before
+    # its value is compared with a number (auto-mutation seed sa-am01299)
+    v = _classify_code(p, model, NON_INT)
+    run.check(v == 'reject', 'close(): a code that is not an int (and not None) is rejected with ValueError before anything is sent, on every '
+              'outcome of the value tests that follow', f, 'close-code type', witness=['code=<any non-int value> -> %s' % v],
+              runtime_witness="ws.close('abc') / ws.close(1000.5) puts {'type': 'websocket.close', 'code': 'abc'} on the wire "
+                              "(or fails with TypeError inside the range tests)")
     # reason only when the spec version supports it
     _reason_gates(run, model)
 
